@@ -986,3 +986,31 @@ func BuildPath(cfg Config, path []int) (*Node, error) {
 	}
 	return n, nil
 }
+
+// CloneBlockLoose deep-copies a block field by field (works for blocks that would not decode strictly).
+func CloneBlockLoose(b *blockchain.Block) *blockchain.Block {
+	h := *b.Header
+	cp := func(x []byte) []byte { return append([]byte{}, x...) }
+	h.ID, h.PreviousBlockID, h.GeneratorAddress = cp(h.ID), cp(h.PreviousBlockID), cp(h.GeneratorAddress)
+	h.TransactionRoot, h.AssetRoot, h.EventRoot, h.StateRoot = cp(h.TransactionRoot), cp(h.AssetRoot), cp(h.EventRoot), cp(h.StateRoot)
+	h.ValidatorsHash, h.Signature = cp(h.ValidatorsHash), cp(h.Signature)
+	if h.AggregateCommit != nil {
+		a := *h.AggregateCommit
+		a.AggregationBits, a.CertificateSignature = cp(a.AggregationBits), cp(a.CertificateSignature)
+		h.AggregateCommit = &a
+	}
+	nb := &blockchain.Block{Header: &h}
+	for _, t := range b.Transactions {
+		nb.Transactions = append(nb.Transactions, t.Copy())
+	}
+	for _, a := range b.Assets {
+		nb.Assets = append(nb.Assets, &blockchain.BlockAsset{Module: a.Module, Data: cp(a.Data)})
+	}
+	if nb.Transactions == nil {
+		nb.Transactions = []*blockchain.Transaction{}
+	}
+	if nb.Assets == nil {
+		nb.Assets = []*blockchain.BlockAsset{}
+	}
+	return nb
+}
